@@ -46,6 +46,8 @@ pub(super) struct AluKey {
     a: u32,
     b: u32,
     c: u32,
+    /// Accumulator operand of a `HornerAcc` step (carried in `intermediate_out`); 0 otherwise.
+    acc: u32,
 }
 
 impl AluKey {
@@ -57,20 +59,32 @@ impl AluKey {
                 a: a.0.min(b.0),
                 b: a.0.max(b.0),
                 c: 0,
+                acc: 0,
             },
             AluOpKind::BoolCheck => Self {
                 kind,
                 a: a.0,
                 b: b.0,
                 c: 0,
+                acc: 0,
             },
             AluOpKind::MulAdd | AluOpKind::HornerAcc => Self {
                 kind,
                 a: a.0,
                 b: b.0,
                 c: c.unwrap_or(WitnessId(0)).0,
+                acc: 0,
             },
         }
+    }
+
+    /// Adds the accumulator of a `HornerAcc` step to the key: `out = acc * b + c - a` depends
+    /// on it, so two steps that differ only in `acc` are not duplicates.
+    pub(super) fn with_accumulator(mut self, acc: Option<WitnessId>) -> Self {
+        if self.kind == AluOpKind::HornerAcc {
+            self.acc = acc.unwrap_or(WitnessId(0)).0;
+        }
+        self
     }
 }
 
